@@ -25,6 +25,41 @@ UNFLATTEN = '''def _unflatten(store, all_combo_values, all_nan=None):
     return store.pop(())'''
 
 
+PROLOGUE = '''
+if combos:
+    combo_args, combo_values = zip(*combos)
+else:
+    combo_args, combo_values = (), ()
+
+if cases:
+    cases = tuple(cases)
+    case_args = tuple(cases[0].keys())
+    case_values = tuple(tuple(c[a] for a in case_args) for c in cases)
+    case_coords = {arg: set() for arg in case_args}
+else:
+    cases = ()
+    case_args = ()
+    case_values = ((),)
+    case_coords = {}
+
+if not set(case_args).isdisjoint(combo_args):
+    raise ValueError(f"Variables can't appear in both ``cases`` and ``combos``, currently found combo variables {combo_args} and case variables{case_args}.")
+
+fn_args = case_args + combo_args
+'''
+
+DUPCHECK = '''
+def check_for_duplicates(arg, values):
+    if values is Ellipsis:
+        return
+    seen = set()
+    for val in values:
+        if val in seen:
+            raise XYZError(f"Duplicate combo value for '{arg}': {val}")
+        seen.add(val)
+'''
+
+
 def norm(node):
     """unparse with comments/docstrings gone"""
     return ast.unparse(node)
@@ -167,4 +202,28 @@ def generate(repo):
         raise Refused(fn, "final return shape")
     out += ["Definition gen_unflatten_is_transcribed : bool := true.",
             "Definition gen_return_uses_results_linear : bool := true.", ""]
+    # the prologue: how argument names and per-case value tuples are read off combos / dict cases (by NAME, in
+    # the key order of the first case) and the overlap guard BEFORE anything is enumerated or run
+    want_pro = ast.parse(PROLOGUE).body
+    body = [x for x in fn.body if not (isinstance(x, ast.Expr) and isinstance(x.value, ast.Constant))]
+    got = [norm(x) for x in body[:len(want_pro)]]
+    if got != [norm(x) for x in want_pro]:
+        k = next(i for i, (a, b) in enumerate(zip(got, [norm(x) for x in want_pro])) if a != b)
+        raise Refused(body[k], "prologue of combo_runner_core differs from the transcription")
+    out += ["Definition gen_prologue_is_transcribed : bool := true.", ""]
+
+    # ---- prepare.py: a value that EQUALS an earlier value of the same argument is refused (the results are
+    #      keyed by value, so equal values would share one slot), for every argument of the grid
+    ptree = ast.parse(open(f"{repo}/xyzpy/gen/prepare.py").read())
+    chk = find_function(ptree, "check_for_duplicates")
+    want_chk = ast.parse(DUPCHECK).body[0]
+    if norm(chk) != norm(want_chk):
+        raise Refused(chk, "check_for_duplicates differs from the transcribed test (membership by equality)")
+    pc = find_function(ptree, "parse_combos")
+    loops = [norm(x) for x in pc.body if isinstance(x, ast.For)]
+    if loops != ["for arg, values in combos:\n    check_for_duplicates(arg, values)"] \
+            or norm(pc.body[-1]) != "return combos":
+        raise Refused(pc, "parse_combos does not check every argument's values before returning")
+    callers = sum(1 for n in ast.walk(fn) if isinstance(n, ast.Call) and norm(n.func) == "parse_combos")
+    out += ["Definition gen_duplicates_rejected_by_equality : bool := true.", ""]
     return "\n".join(out)
